@@ -59,6 +59,17 @@ func (r *run) roundTrip() (data []byte, ref snapshot, ok bool) {
 		c.Count("table:last-line-without-newline")
 	}
 	c.Logf("encoded (%s, %d bytes): %s", r.cd.name, len(data), describeBytes(data))
+	longest := 0
+	for _, l := range strings.Split(string(data), "\n") {
+		if len(l) > longest {
+			longest = len(l)
+		}
+	}
+	if longest > 65536 {
+		c.Count("reach:" + r.cd.name + ":a-line-longer-than-65536-bytes")
+	} else if longest > 4096 {
+		c.Count("reach:" + r.cd.name + ":a-line-longer-than-4096-bytes")
+	}
 	var dec interface{}
 	if pv, site := core.Try(func() { dec, err = r.cd.decode(a, data) }); pv != nil {
 		r.fail("reader-no-panic", "panic-on-own-output|"+siteClass(site)+"|"+core.PanicClass(pv), "reading back the writer's own output of %s panicked in %s: %v; bytes: %s", a.desc, site, pv, describeBytes(data))
@@ -218,10 +229,13 @@ var faultFamilies = []string{"torn", "token", "bitflip", "bytedrop", "bytedup", 
 
 func runCodec(c *core.Ctx, cd codec, faults bool) {
 	t := c.Tape
-	fam := []string{"scalar", "vector", "matrix"}
-	w := []int{2, 4, 5}
+	fam := []string{"scalar", "vector", "matrix", "long"}
+	w := []int{4, 8, 10, 1}
 	if cd.name == "table" {
-		w = []int{0, 4, 5}
+		w = []int{0, 8, 10, 1}
+	}
+	if faults {
+		w[3] = 0 // long lines in the clean configuration only: 256 damaged copies of a 100 kB file cost minutes
 	}
 	a := genArtifact(t, fam[t.Pick(w)], cd.name == "table" && c.Avoid["C18-F1"])
 	r := &run{c: c, a: a, cd: cd}
